@@ -551,3 +551,24 @@ Theorem C03_ties_in_first_registration_order : forall f (adds : list (reg * Z * 
   = map e_key (filter (same_order k) (map add_entry adds)).
 Proof. exact ties_in_first_registration_order. Qed.
 Print Assumptions C03_ties_in_first_registration_order.
+
+(* ==== ties with overrides interleaved with new registrations (Proofs/C03_ties2.v) *)
+Require Import Verif.Proofs.C03_ties2.
+
+(* the (order, phash) sequence of views is a fold over the keys alone *)
+Theorem C03_views_keys_fold : forall f (adds : list (reg * Z * text)) m,
+  mv_sorted f m -> Forall (fun a : reg * Z * text => snd (fst a) = f (snd a)) adds ->
+  map e_key (mv_views (fold_left mv_add_args (map plain_add adds) m))
+  = fold_left addK (map key_of_add adds) (map e_key (mv_views m)).
+Proof. exact fold_keys. Qed.
+Print Assumptions C03_views_keys_fold.
+
+(* any sequence of plain registrations and overrides, interleaved at will (order a function of the phash): among entries
+   of equal order, views lists the phashes in the order of their FIRST registration *)
+Theorem C03_ties_first_registration_interleaved : forall f (adds : list (reg * Z * text)) k,
+  Forall (fun a : reg * Z * text => snd (fst a) = f (snd a)) adds ->
+  filter (fun kp : Z * text => Z.eqb (fst kp) k)
+         (map e_key (mv_views (fold_left mv_add_args (map plain_add adds) mv_empty)))
+  = map e_key (filter (same_order k) (map add_entry (first_adds [] adds))).
+Proof. exact ties_first_registration_interleaved. Qed.
+Print Assumptions C03_ties_first_registration_interleaved.
